@@ -1095,7 +1095,8 @@ def sch_taskdone(ctx: Ctx) -> RuleResult:
                 for st in iter_own_nodes(f.node):
                     if isinstance(st, ast.Assign) and st.value is c and isinstance(st.targets[0], ast.Name):
                         nm = st.targets[0].id
-                        ok = any(isinstance(a, ast.Await) and dotted(a.value) == nm for a in iter_own_nodes(f.node))
+                        ok = any(isinstance(a, ast.Await) and dotted(a.value) == nm for a in iter_own_nodes(f.node)) or \
+                            (not f.is_async and any(isinstance(a, ast.Return) and dotted(a.value) == nm for a in iter_own_nodes(f.node)))
             r.ob(ok, {"in": f.short, "pool submission": norm_src(c), "awaited by the wrapper": ok})
             if not ok:
                 r.violate(f"{f.short}: the future returned by run_in_executor is not awaited", f.loc(c),
